@@ -155,27 +155,79 @@ Section PROOFS.
     rewrite fold_limit. cbn [on_slice limit_ops]. cbn. now rewrite IH.
   Qed.
 
-  Lemma wrap_limit_done L : 0 < L -> forall bs, List.concat (wrap (limit_ops V L) L bs) = [].
+  (* once `sent >= limit` (the limit is filled, or it is negative) nothing is sent any more *)
+  Lemma wrap_limit_done L : L <> 0 -> forall bs s fl, L <= s -> List.concat (wrap (limit_ops V L) (s, fl) bs) = [].
   Proof.
-    intros HL. induction bs as [|b r IH]; cbn [wrap]; [reflexivity|].
-    rewrite fold_limit. cbn [on_slice limit_ops].
-    destruct (Z.eqb_spec L 0) as [->|_]; [lia|]. rewrite Z.leb_refl. cbn [app]. exact IH.
+    intros HL. induction bs as [|b r IH]; intros s fl Hs; cbn [wrap]; [reflexivity|].
+    rewrite fold_limit. cbn [on_slice limit_ops fst snd].
+    destruct (Z.eqb_spec L 0) as [->|_]; [lia|].
+    destruct (Z.leb_spec L s) as [_|H]; [|lia]. cbn [app]. now apply IH.
   Qed.
 
-  Lemma wrap_limit_pos L : 0 < L -> forall bs s, 0 <= s <= L ->
-    List.concat (wrap (limit_ops V L) s bs) = firstn (Z.to_nat (L - s)) (List.concat bs).
+  Lemma wrap_limit_pos L : 0 < L -> forall bs s fl, 0 <= s <= L ->
+    List.concat (wrap (limit_ops V L) (s, fl) bs) = firstn (Z.to_nat (L - s)) (List.concat bs).
   Proof.
-    intros HL. induction bs as [|b r IH]; intros s Hs; cbn [wrap List.concat].
+    intros HL. induction bs as [|b r IH]; intros s fl Hs; cbn [wrap List.concat].
     - now rewrite firstn_nil.
-    - rewrite fold_limit. cbn [on_slice limit_ops].
+    - rewrite fold_limit. cbn [on_slice limit_ops fst snd].
       destruct (Z.eqb_spec L 0) as [->|_]; [lia|].
       destruct (Z.leb_spec L s) as [H1|H1].
-      + cbn [app]. replace s with L by lia. rewrite wrap_limit_done by exact HL.
-        replace (Z.to_nat (L - L)) with O by lia. reflexivity.
+      + cbn [app]. rewrite wrap_limit_done by lia.
+        replace (Z.to_nat (L - s)) with O by lia. reflexivity.
       + destruct (Z.ltb_spec (s + Z.of_nat (List.length b)) L) as [H2|H2]; cbn [app List.concat].
         * rewrite IH by lia. rewrite firstn_app, (firstn_all2 b) by lia. f_equal. f_equal. lia.
-        * rewrite wrap_limit_done by exact HL. rewrite app_nil_r, firstn_app.
+        * rewrite wrap_limit_done by lia. rewrite app_nil_r, firstn_app.
           replace (Z.to_nat (L - s) - List.length b)%nat with O by lia. cbn [firstn]. now rewrite app_nil_r.
+  Qed.
+
+  (* for EVERY value of the limit parameter, negative ones included (they send nothing) *)
+  Lemma wrap_limit_all L bs :
+    List.concat (wrap (limit_ops V L) (0, false) bs) = sem_limit V L (List.concat bs).
+  Proof.
+    unfold sem_limit. destruct (Z.eqb_spec L 0) as [E|E].
+    - rewrite E. now rewrite wrap_limit_zero.
+    - destruct (Z.ltb_spec 0 L) as [HL|HL].
+      + rewrite (wrap_limit_pos L HL) by lia. now rewrite Z.sub_0_r.
+      + rewrite wrap_limit_done by lia. replace (Z.to_nat L) with O by lia. reflexivity.
+  Qed.
+
+  (* the side effect: ctx.CancelCtx is called exactly when a positive limit is filled by the entries that arrived *)
+  Lemma limit_final L : forall bs s fl, 0 <= s ->
+    wrap_final V (limit_ops V L) (s, fl) bs =
+    Some (if (L =? 0) || (L <=? s) then (s, fl)
+          else if s + Z.of_nat (List.length (List.concat bs)) <? L then (s + Z.of_nat (List.length (List.concat bs)), fl)
+          else (L, true)).
+  Proof.
+    induction bs as [|b r IH]; intros s fl Hs; cbn [wrap_final List.concat].
+    - cbn [on_end limit_ops List.length]. rewrite Z.add_0_r.
+      destruct (Z.eqb_spec L 0) as [E|E]; [reflexivity|]. cbn [orb].
+      destruct (Z.leb_spec L s) as [H1|H1]; [reflexivity|].
+      destruct (Z.ltb_spec s L) as [H2|H2]; [reflexivity|lia].
+    - rewrite fold_limit. cbn [on_slice limit_ops fst snd]. rewrite app_length, Nat2Z.inj_add.
+      destruct (Z.eqb_spec L 0) as [E|E]; [rewrite IH by lia; subst L; reflexivity|]. cbn [orb].
+      destruct (Z.leb_spec L s) as [H1|H1].
+      + rewrite IH by lia. destruct (Z.eqb_spec L 0) as [E'|_]; [lia|]. cbn [orb].
+        destruct (Z.leb_spec L s) as [_|H]; [reflexivity|lia].
+      + destruct (Z.ltb_spec (s + Z.of_nat (List.length b)) L) as [H2|H2].
+        * rewrite IH by lia. destruct (Z.eqb_spec L 0) as [E'|_]; [lia|]. cbn [orb].
+          destruct (Z.leb_spec L (s + Z.of_nat (List.length b))) as [H|_]; [lia|].
+          rewrite <- Z.add_assoc.
+          destruct (Z.ltb_spec (s + (Z.of_nat (List.length b) + Z.of_nat (List.length (List.concat r)))) L); reflexivity.
+        * rewrite IH by lia. destruct (Z.eqb_spec L 0) as [E'|_]; [lia|]. cbn [orb].
+          rewrite Z.leb_refl.
+          destruct (Z.ltb_spec (s + (Z.of_nat (List.length b) + Z.of_nat (List.length (List.concat r)))) L) as [H|_]; [lia|reflexivity].
+  Qed.
+
+  Lemma limit_cancelled_iff c bs :
+    limit_cancelled V c bs = (0 <? c_limit c) && (c_limit c <=? Z.of_nat (List.length (List.concat bs))).
+  Proof.
+    unfold limit_cancelled. rewrite limit_final by lia. rewrite Z.add_0_l.
+    destruct (Z.eqb_spec (c_limit c) 0) as [E|E]; [rewrite E; reflexivity|]. cbn [orb].
+    destruct (Z.leb_spec (c_limit c) 0) as [H1|H1]; cbn [snd].
+    - destruct (Z.ltb_spec 0 (c_limit c)); [lia|reflexivity].
+    - destruct (Z.ltb_spec 0 (c_limit c)) as [_|H]; [|lia]. cbn [andb].
+      destruct (Z.ltb_spec (Z.of_nat (List.length (List.concat bs))) (c_limit c)) as [H2|H2]; cbn [snd];
+        destruct (Z.leb_spec (c_limit c) (Z.of_nat (List.length (List.concat bs)))); try reflexivity; lia.
   Qed.
 
   (* ---------- stages that only send at the end of the input (the aggregators) ---------- *)
@@ -441,13 +493,21 @@ Section PROOFS.
   Notation sem_stage := (sem_stage V v0 v1 vadd vdiv vltb vleb veqb vofZ fpf re_match pfloat parse tmpl).
   Notation sem_chain := (sem_chain V v0 v1 vadd vdiv vltb vleb veqb vofZ fpf re_match pfloat parse tmpl).
 
-  Lemma limit_agrees c bs : 0 <= c_limit c ->
+  Lemma limit_agrees c bs :
     List.concat (run_stage c (SLimit V) bs) = sem_limit V (c_limit c) (List.concat bs).
+  Proof. cbn [InternalEngine.run_stage]. apply wrap_limit_all. Qed.
+
+  (* cancelling the upstream query loses nothing: once the limit stage has cancelled, whatever else the upstream could
+     still have sent would not have changed what the stage sends *)
+  Lemma cancel_loses_nothing c bs more :
+    limit_cancelled V c bs = true ->
+    List.concat (run_stage c (SLimit V) (bs ++ more)) = List.concat (run_stage c (SLimit V) bs).
   Proof.
-    intros H. cbn [InternalEngine.run_stage]. unfold sem_limit.
-    destruct (Z.eqb_spec (c_limit c) 0) as [E|E].
-    - rewrite E. now rewrite wrap_limit_zero.
-    - rewrite (wrap_limit_pos (c_limit c)) by lia. now rewrite Z.sub_0_r.
+    intros H. rewrite limit_cancelled_iff in H. apply andb_true_iff in H. destruct H as [H1 H2].
+    apply Z.ltb_lt in H1. apply Z.leb_le in H2. rewrite !limit_agrees, concat_app. unfold sem_limit.
+    destruct (Z.eqb_spec (c_limit c) 0) as [E|_]; [lia|].
+    rewrite firstn_app. replace (Z.to_nat (c_limit c) - List.length (List.concat bs))%nat with O by lia.
+    cbn [firstn]. apply app_nil_r.
   Qed.
 
   Definition good (e : entry) : Prop := data_row V e.
@@ -652,21 +712,21 @@ Section PROOFS.
       destruct (e_err V e); try reflexivity. contradiction.
   Qed.
 
-  Lemma sim_stage c s bs r : simple_stage V s = true -> 0 <= c_limit c ->
+  Lemma sim_stage c s bs r : simple_stage V s = true ->
     sim (List.concat bs) r -> sim (List.concat (run_stage c s bs)) (sem_stage c s r).
   Proof.
-    intros Hs HL Hsim. destruct (flat_stage s) eqn:F.
+    intros Hs Hsim. destruct (flat_stage s) eqn:F.
     - rewrite (run_stage_flat c s bs F), (sem_stage_flat c s r F). apply sim_flat_map; [now apply compat_stage|exact Hsim].
     - destruct s; cbn [flat_stage simple_stage] in *; try discriminate.
       cbn [InternalEngine.run_stage InternalEngine.sem_stage].
-      pose proof (limit_agrees c bs HL) as E. cbn [InternalEngine.run_stage] in E. rewrite E. now apply sim_limit.
+      pose proof (limit_agrees c bs) as E. cbn [InternalEngine.run_stage] in E. rewrite E. now apply sim_limit.
   Qed.
 
-  Lemma sim_chain c : 0 <= c_limit c -> forall ch, forallb (simple_stage V) ch = true ->
+  Lemma sim_chain c : forall ch, forallb (simple_stage V) ch = true ->
     forall bs r, sim (List.concat bs) r ->
       sim (List.concat (run_chain c ch bs)) (fold_left (fun x s => sem_stage c s x) ch r).
   Proof.
-    intros HL. induction ch as [|s ch IH]; intros Hs bs r Hsim; [exact Hsim|].
+    induction ch as [|s ch IH]; intros Hs bs r Hsim; [exact Hsim|].
     cbn [forallb] in Hs. apply andb_true_iff in Hs. destruct Hs as [H1 H2].
     unfold InternalEngine.run_chain. cbn [fold_left]. rewrite (sim_no_crash bs r Hsim).
     apply (IH H2). now apply sim_stage.
@@ -696,12 +756,12 @@ Section PROOFS.
 
   (* ---- agreement of a whole chain of simple stages ---- *)
   Lemma chain_agrees c ch rows t bs :
-    0 <= c_limit c -> forallb (simple_stage V) ch = true ->
+    forallb (simple_stage V) ch = true ->
     Forall good rows -> Forall nondata t -> List.concat bs = rows ++ t ->
     map erase (data_of V (List.concat (run_chain c ch bs))) = map erase (sem_chain c ch (List.concat bs)).
   Proof.
-    intros HL Hs Hd Ht E. apply data_of_sim. unfold InternalEngine.sem_chain.
-    apply (sim_chain c HL ch Hs). rewrite E. now apply sim_start.
+    intros Hs Hd Ht E. apply data_of_sim. unfold InternalEngine.sem_chain.
+    apply (sim_chain c ch Hs). rewrite E. now apply sim_start.
   Qed.
 
   Lemma data_of_rows rows t : Forall good rows -> Forall nondata t -> data_of V (rows ++ t) = rows.
@@ -715,11 +775,11 @@ Section PROOFS.
   Qed.
 
   Lemma stage_agrees c s rows t bs :
-    0 <= c_limit c -> simple_stage V s = true ->
+    simple_stage V s = true ->
     Forall good rows -> Forall nondata t -> List.concat bs = rows ++ t ->
     map erase (data_of V (List.concat (run_stage c s bs))) = map erase (sem_stage c s rows).
   Proof.
-    intros HL Hs Hd Ht E. apply data_of_sim. apply sim_stage; [exact Hs|exact HL|].
+    intros Hs Hd Ht E. apply data_of_sim. apply sim_stage; [exact Hs|].
     rewrite E. exists rows, t. auto.
   Qed.
 
